@@ -8,5 +8,5 @@ Cd "ocaml".
 Extraction "model.ml" powmod invmod legendre phi mobiusL order isorder is_prim_root lowest_prim_root prim_root
   prim_root_of_prime lambda lambda_inv lambda_inv_primpow lambda_primpow prim_elem prim_inv rns_to_ring logp
   sqrootmodprime sqrootlinear sqroottwolinear hensellift onemorelift twolift sqrootmodpoweroftwo pow2_fuel
-  sqrootmodprimepower sqrootmod brillhart sos_nonres sos_det sos_noerh count_units isprime_td.
+  sqrootmodprimepower sqrootmod brillhart sos_nonres sos_det sos_noerh sos_mc probable_prim_root kronecker_sym count_units isprime_td.
 Cd "..".
